@@ -114,6 +114,9 @@ const Changelog = `- semver: "1.1.0-1"
   date: "2009-10-01T10:00:00Z"
   changes:
     - note: "entry without packager"
+- semver: "0.8.0"
+  date: "2009-09-01T09:00:00Z"
+  packager: "Jane Roe <jane@example.com>"
 `
 
 // BigChangelog renders 240 changelog entries (about 40 KB as Debian changelog text, about 2 KB gzipped).
@@ -218,6 +221,8 @@ func Spec(big int) []Node {
   changes:
     - note: "entry without date and packager"
 `)})
+	// a changelog file without entries
+	ns = append(ns, Node{Rel: "changelog-empty.yaml", Kind: "file", Mode: 0o644, Data: []byte("[]\n")})
 	// a long changelog: its text is many times larger than its gzip form
 	ns = append(ns, Node{Rel: "changelog-big.yaml", Kind: "file", Mode: 0o644, Data: []byte(BigChangelog())})
 	// a root file system image: packaged as a tree at "/", most of its directories belong to the distribution's
